@@ -145,7 +145,15 @@ def _wrap_kernel(fn, kname):
             _fail(cname, why='shape/dtype', shape=getattr(out, 'shape', None), want=(ny, nx))
             return out
         if not np.all(np.isfinite(out)):
-            _fail(cname, why='non-finite weight')
+            extra = {}
+            if kname.endswith('elliptical') and use_exact:
+                # same structural flags as the range contract below, so that a NaN weight produced by
+                # the known corner-on-ellipse / tangent-edge mechanism is classified as that mechanism
+                extra = _kernel_special_flags(xmin + np.arange(nx + 1), ymin + np.arange(ny + 1),
+                                              [(rest[0], rest[1], rest[2])])
+                extra.update(shape='ellipse', method='exact',
+                             kernel='pyx_twin' if kname.startswith('pyx_twin') else 'compiled')
+            _fail(cname, why='non-finite weight', _mech=extra)
         elif use_exact:
             tol = _exact_atol(max(rest[0], rest[1]) if kname.endswith('elliptical') else rest[0])
             if out.min() < -tol or out.max() > 1 + tol:
